@@ -51,6 +51,8 @@ M = [
     ("m24", "C12", "src/streaming/persistence.rs", "        self.store.put(&segment_key, &data).await?;\n", "        let _ = self.store.put(&segment_key, &data).await;\n", r"R12\.(1|6)"),
     ("m25", "C13", "src/streaming/compaction.rs", "        new_manifest\n            .segments\n            .retain(|s| !segment_ids.contains(&s.id));\n        new_manifest.add_segment(new_segment.clone());",
      "        let max_id = segment_ids.iter().copied().max().unwrap_or(0);\n        new_manifest.segments.retain(|s| s.id > max_id);\n        new_manifest.add_segment(new_segment.clone());", r"R13\.6"),
+    ("m40", "C13", "src/streaming/compaction.rs", "Err(e) if e.kind() == std::io::ErrorKind::NotFound => {", "Err(e) if e.kind() == std::io::ErrorKind::TimedOut => {", r"R13\.5"),
+    ("m41", "C13", "src/streaming/compaction.rs", "                        Err(e) => {\n                            eprintln!(\"Failed to read deltas from {}: {}\", segment_info.key, e);\n                        }", "                        Err(e) => {\n                            eprintln!(\"Failed to read deltas from {}: {}\", segment_info.key, e);\n                            actually_compacted.push(segment_info);\n                        }", r"R13\.5"),
     ("m26", "C14", "src/streaming/segment.rs", "        hasher.update(&self.record_count.to_le_bytes());\n        hasher.update(&self.min_timestamp.to_le_bytes());", "        hasher.update(&self.min_timestamp.to_le_bytes());", r"R14\.3"),
     ("m27", "C14", "src/streaming/recovery.rs", "        // Validate segment integrity\n        reader.validate()?;\n", "", r"R14\.4"),
     ("m28", "C15", "src/redis/resp_optimized.rs", "            if len < 0 {\n                return Err(format!(\"Invalid bulk string length: {}\", len));\n            }\n", "", r"R15\.1"),
